@@ -1,8 +1,21 @@
 (* C15 - synced contract events equal the canonical chain's, through reorgs and failures.
-   This file only states the theorems; proofs are in Proofs/Syncer*.v. *)
-From Coq Require Import List NArith ZArith Bool Lia.
-From Verif Require Import Lib.Bytes Model.Syncer Proofs.SyncerRanges.
+   This file only states the theorems; proofs are in Proofs/Syncer*.v.
+
+   Vocabulary (Model/Syncer.v): a view is the node's canonical branch at one Sync call (list of
+   blocks from genesis, each with its hash and its decoded contract events); [sync fl nd st rpc
+   db] is one Sync call under two fault streams (one entry per RPC call, one per database
+   operation); [grun fl history] runs a history of (view, faults) from the empty database and
+   remembers, as a ghost, the view of the last Sync that wrote; [heads_ok] is the property's
+   assumption on the observed heads (forks at most the assumed depth below the synced block,
+   first head of a fork at most one past the synced block); [universe_ok] says the views are
+   non-empty, block hashes are non-empty and identify a block with its ancestors, a key is
+   registered at most once per branch, and head + range limit < 2^63. *)
+From Coq Require Import List NArith ZArith Bool Lia String.
+From Verif Require Import Lib.Bytes Model.Syncer Generated.SyncConsts
+     Proofs.SyncerRanges Proofs.SyncerLemmas Proofs.Syncer Proofs.SyncerInstances.
 Import ListNotations.
+Open Scope string_scope.
+Open Scope list_scope.
 Open Scope Z_scope.
 
 (* GetSyncRanges: for every start >= 0, positive range limit and end + limit < 2^64 the Go
@@ -20,3 +33,146 @@ Example C15_sync_ranges_cover_nonvacuous :
   ranges_cover 1 21010 10000 [(1, 10000); (10001, 20000); (20001, 21010)] /\
   get_sync_ranges 5 4 3 = RangesDone [].
 Proof. split; [vm_compute; reflexivity|]. split; [|vm_compute; reflexivity]. simpl. repeat split; try lia; intros H; congruence. Qed.
+
+(* The sync position and the events it covers change together.  For every syncer flavour
+   (including the legacy one), every node, every state and all fault streams: the database
+   states written by one Sync form a chain in which each transition is either the commit of
+   one range - the status becomes (end, hash of end) and exactly the admissible events of
+   [start, end] are upserted, in the same transition; on flavours that return the
+   transaction's error the range starts right after the previous position - or a rollback
+   (status and deletions together); and the final state is the last one written. *)
+Theorem C15_atomic_pair :
+  forall (E K : Type) (key : E -> K) (key_eqb : K -> K -> bool) (admissible : E -> bool)
+         (merge : pev E -> pev E -> pev E) (fl : flavour) (nd : node E) (st : state E) (rpc db : list fault),
+    0 < fl_range fl -> 0 <= fl_first_start fl -> n_number nd + fl_range fl < two64 ->
+    (forall k h, st_status st = Some (k, h) -> 0 <= k) ->
+    let '(st', _, tr) := sync key key_eqb admissible merge fl nd st rpc db in
+    chain_justified key key_eqb admissible merge fl nd st tr /\ st' = last tr st.
+Proof. exact atomic_pair. Qed.
+Print Assumptions C15_atomic_pair.
+
+Example C15_atomic_pair_nonvacuous :
+  (* two ranges are committed, the third transaction loses its connection after the commit *)
+  let '(st', r, tr) := registry_sync (d8_flavour false) (node_of_view d8_view) init_state [] [NoFault; NoFault; NoFault; NoFault; FailApplied] in
+  r = Err /\ List.length tr = 3%nat /\ st_status st' = Some (5, hx "05") /\ List.length (st_rows st') = 1%nat.
+Proof. vm_compute. repeat split. Qed.
+
+(* Exactness.  For every flavour that returns the error of its transaction (the multi-event
+   syncer; the registry and sequencer syncers since the D8 fix), every history of views and
+   fault streams that satisfies the property's assumptions: whenever the recorded position
+   (k, h) lies on the current view (the block numbered k of the view has hash h), the table is
+   exactly the list of the view's admissible events of the blocks [sync start, k], in chain
+   order - none missing, none from abandoned blocks, none duplicated.
+   _partial: the hypothesis [quiet_before] (no admissible event in a block below the sync
+   start, in any view) excludes D9; without it the statement is false
+   (C15_exact_when_canonical_refuted). *)
+Theorem C15_exact_when_canonical_partial :
+  forall (E K : Type) (key : E -> K) (key_eqb : K -> K -> bool) (admissible : E -> bool)
+         (merge : pev E -> pev E -> pev E),
+    (forall a b, key_eqb a b = true <-> a = b) ->
+  forall fl : flavour,
+    fl_swallow fl = false -> 0 < fl_range fl -> 0 <= fl_depth fl -> 0 <= fl_first_start fl ->
+  forall (inputs : list (sync_input E)) (v : view E) (faults : list fault * list fault),
+    let history := inputs ++ [(v, faults)] in
+    universe_ok key admissible fl (map fst history) ->
+    (forall u, In u (map fst history) -> quiet_before admissible u (fl_first_start fl)) ->
+    heads_ok key key_eqb admissible merge fl ginit history ->
+    forall k h b,
+      st_status (g_st (grun key key_eqb admissible merge fl history)) = Some (k, h) ->
+      block_at v k = Some b -> bk_hash b = h ->
+      st_rows (g_st (grun key key_eqb admissible merge fl history)) = rows_of admissible v (fl_first_start fl) k.
+Proof. exact exact_when_canonical. Qed.
+Print Assumptions C15_exact_when_canonical_partial.
+
+(* instance: the multi-event syncer's registration table (event_trigger_registered_event), for
+   every configured depth and range limit; "nothing synced" means synced until
+   SyncStartBlockNumber, so the first block fetched is SyncStartBlockNumber + 1 *)
+Theorem C15_exact_when_canonical_multi_partial :
+  forall sync_start depth range : Z, 0 <= sync_start -> 0 <= depth -> 0 < range ->
+  forall (inputs : list (sync_input uev)) (v : view uev) (faults : list fault * list fault),
+    let fl := multi_flavour sync_start depth range in
+    let history := inputs ++ [(v, faults)] in
+    universe_ok trigger_key trigger_admissible fl (map fst history) ->
+    (forall u, In u (map fst history) -> quiet_before trigger_admissible u (sync_start + 1)) ->
+    heads_ok trigger_key ukey_eqb trigger_admissible trigger_merge fl ginit history ->
+    forall k h b,
+      st_status (g_st (grun trigger_key ukey_eqb trigger_admissible trigger_merge fl history)) = Some (k, h) ->
+      block_at v k = Some b -> bk_hash b = h ->
+      st_rows (g_st (grun trigger_key ukey_eqb trigger_admissible trigger_merge fl history))
+      = rows_of trigger_admissible v (sync_start + 1) k.
+Proof.
+  intros sync_start depth range Hs Hd Hr inputs v faults.
+  apply (exact_when_canonical uev ukey trigger_key ukey_eqb trigger_admissible trigger_merge ukey_eqb_spec
+           (multi_flavour sync_start depth range)); simpl; try reflexivity; lia.
+Qed.
+Print Assumptions C15_exact_when_canonical_multi_partial.
+
+(* a history with a fork whose hypotheses hold: two views, the second forks one block below
+   the synced block; after the resync the table is the second view's events *)
+Definition c15_ex_a : view uev :=
+  [ mkblk (hx "00") []; mkblk (hx "01") [(0, 0, ev1)]; mkblk (hx "a2") [(0, 0, mkuev 2 (hx "cc") (hx "bb") 9 [] false 0 0 0)] ].
+Definition c15_ex_b : view uev :=
+  [ mkblk (hx "00") []; mkblk (hx "01") [(0, 0, ev1)]; mkblk (hx "b2") []; mkblk (hx "b3") [(0, 0, mkuev 2 (hx "cc") (hx "bb") 9 [] false 0 0 0)] ].
+Definition c15_ex_history : list (sync_input uev) := [(c15_ex_a, ([], [])); (c15_ex_b, ([], [NoFault; NoFault; Fail])); (c15_ex_b, ([], []))].
+
+Example C15_exact_when_canonical_nonvacuous :
+  let fl := registry_flavour 0 10 10000 false in
+  registry_universe_ok fl (map fst c15_ex_history) /\
+  (forall u, In u (map fst c15_ex_history) -> quiet_before registry_admissible u 0) /\
+  registry_heads_ok fl ginit c15_ex_history /\
+  st_status (g_st (registry_grun fl c15_ex_history)) = Some (3, hx "b3") /\
+  st_rows (g_st (registry_grun fl c15_ex_history)) = rows_of registry_admissible c15_ex_b 0 3 /\
+  List.length (st_rows (g_st (registry_grun fl c15_ex_history))) = 2%nat.
+Proof.
+  simpl. split; [|split; [|split]].
+  - split.
+    + intros v [<-|[<-|[<-|[]]]]; (split; [discriminate|]; split; [|split]);
+        try (intros b Hb; simpl in Hb; repeat (destruct Hb as [<-|Hb]; [discriminate|]); destruct Hb);
+        try (unfold keys_unique; concrete_nodup); vm_compute; reflexivity.
+    + intros v w [<-|[<-|[<-|[]]]] [<-|[<-|[<-|[]]]]; concrete_hash_determines.
+  - intros u _. reflexivity.
+  - split; [exact I|].
+    assert (Hg1 : gstep registry_key ukey_eqb registry_admissible registry_merge (registry_flavour 0 10 10000 false) ginit (c15_ex_a, ([], []))
+                  = mkg (mkstate (Some (2, hx "a2")) (rows_of registry_admissible c15_ex_a 0 2)) c15_ex_a) by (vm_compute; reflexivity).
+    rewrite Hg1. split; [unfold head_ok; simpl; split; [concrete_agree|left; vm_compute; discriminate]|].
+    assert (Hg2 : gstep registry_key ukey_eqb registry_admissible registry_merge (registry_flavour 0 10 10000 false)
+                        (mkg (mkstate (Some (2, hx "a2")) (rows_of registry_admissible c15_ex_a 0 2)) c15_ex_a)
+                        (c15_ex_b, ([], [NoFault; NoFault; Fail]))
+                  = mkg (mkstate (Some (0, [])) []) c15_ex_b) by (vm_compute; reflexivity).
+    rewrite Hg2. split; [|exact I]. unfold head_ok. simpl. split; [concrete_agree|right; concrete_agree].
+  - vm_compute. repeat split.
+Qed.
+
+(* D9 on the model: every hypothesis of C15_exact_when_canonical_partial except quiet_before
+   holds for this two-view history (sync start 2, assumed depth 3, an event in block 1, synced
+   to block 3, then head 4 on a fork below 3), the position is canonical, and the table holds
+   the event of block 1. *)
+Theorem C15_exact_when_canonical_refuted :
+  exists (history : list (sync_input uev)) v,
+    let fl := d9_flavour in
+    fl_swallow fl = false /\
+    In v (map fst history) /\
+    registry_universe_ok fl (map fst history) /\
+    registry_heads_ok fl ginit history /\
+    exists k h b, st_status (g_st (registry_grun fl history)) = Some (k, h) /\
+                  block_at v k = Some b /\ bk_hash b = h /\
+                  st_rows (g_st (registry_grun fl history)) <> rows_of registry_admissible v (fl_first_start fl) k.
+Proof. exact exact_when_canonical_refuted. Qed.
+Print Assumptions C15_exact_when_canonical_refuted.
+
+(* D8 on the legacy flavour (syncRange swallows the error of its transaction): one Sync over
+   three ranges whose first transaction fails ends with a canonical position and a missing
+   event, all hypotheses (including quiet_before) holding. *)
+Theorem C15_exact_when_canonical_legacy_refuted :
+  exists (history : list (sync_input uev)) v,
+    let fl := d8_flavour true in
+    fl_swallow fl = true /\
+    In v (map fst history) /\
+    registry_universe_ok fl (map fst history) /\
+    (forall u, In u (map fst history) -> quiet_before registry_admissible u (fl_first_start fl)) /\
+    registry_heads_ok fl ginit history /\
+    exists k h b, st_status (g_st (registry_grun fl history)) = Some (k, h) /\
+                  block_at v k = Some b /\ bk_hash b = h /\
+                  st_rows (g_st (registry_grun fl history)) <> rows_of registry_admissible v (fl_first_start fl) k.
+Proof. exact exact_when_canonical_legacy_refuted. Qed.
+Print Assumptions C15_exact_when_canonical_legacy_refuted.
